@@ -152,9 +152,9 @@ fn c01_getters(directed: bool, multi: bool, pre: u8, op: u8, dd: u8) {
 }
 
 /// C03: as c01_step but the assertion is the traversal-list clause only.
-fn c03_step(directed: bool, multi: bool, pre: u8, op: u8, dd: u8, mm: u8) {
+fn c03_step(directed: bool, multi: bool, pre: u8, op: u8, dd: u8, mm: u8, sl: u8) {
     let (mut g, before, has_loop) = build_pre(directed, multi, pre);
-    let specs = any_specs_kind_dd_mm(directed, multi, dd, mm);
+    let specs = any_specs_kind_dd_mm_sl(directed, multi, dd, mm, sl);
     assume(specs.self_loops || !has_loop);
     g.specs = specs.clone();
     let (u, v) = op_endpoints(op);
